@@ -1485,7 +1485,7 @@ class TensorDict(TensorDictBase):
                     if result is None:
                         result = make_result()
                     any_set = True
-                if isinstance(self, _SubTensorDict):
+                if isinstance(result, _SubTensorDict):
                     result.set(key, item_trsf, inplace=inplace)
                 else:
                     result._set_str(
